@@ -85,8 +85,9 @@ def receiver(uid, rx):
     t.snr = np.full(3, rx['snrbw'] / 1e6)
     t.osnr_ase = np.full(3, rx['osnrbw'] / 1e6)
     t.osnr_ase_01nm = np.full(3, rx['osnr01'] / 1e6)
-    t.penalties = {k: np.full(3, rx[s] / 1e6) for s, k in (('pdl', 'pdl'), ('cd', 'chromatic_dispersion'), ('pmd', 'pmd'))
-                   if rx[s] != NONE}
+    # an infinite mean: one carrier within the tolerance, the others beyond it (the general case of "infinite")
+    t.penalties = {k: (np.array([0.3, np.inf, np.inf]) if rx[s] >= INF else np.full(3, rx[s] / 1e6))
+                   for s, k in (('pdl', 'pdl'), ('cd', 'chromatic_dispersion'), ('pmd', 'pmd')) if rx[s] != NONE}
     return t
 
 
@@ -201,6 +202,9 @@ def crafted():
         rq('auto', 'Lannion_CAS', 'Brest_KLA', mode=None, spacing=75e9, bw=300e9, bidir=True),
         rq('auto50', 'Rennes_STA', 'Lorient_KMA', mode=None, spacing=62.5e9, bw=500e9, power=0.0005),
         rq('loose', 'Brest_KLA', 'Rennes_STA', route=['roadm Vannes_KBE'], strict=False, bw=100e9),
+        # CD tolerance ending inside the per-carrier spread of the route: infinite penalty for part of the carriers
+        rq('edge', 'Lannion_CAS', 'Lorient_KMA', typ='VerifEdge', mode='e1', bidir=True),
+        rq('edge-ok', 'Vannes_KBE', 'Lorient_KMA', typ='VerifEdge', mode='e1'),
     ]
     agg_blocked = [
         rq('b1', 'Lannion_CAS', 'Vannes_KBE', typ='VerifHard', mode='h1', bw=100e9, bidir=True),
@@ -262,7 +266,8 @@ def b3(chk):
         traces.append(pu.trace_of(run, j19=True))
         runs[name] = run
     verdicts = pu.judge(traces, chk, 'c19-b3')
-    seen_reason, feat = set(), dict(bidir=0, aggregated=0, multislot=0, bidir_blocked=0, aggregated_blocked=0, entries=0)
+    seen_reason, feat = set(), dict(bidir=0, aggregated=0, multislot=0, bidir_blocked=0, aggregated_blocked=0, entries=0,
+                                    partly_infinite_penalty=0)
     for name, viol in verdicts.items():
         run = runs[name]
         for ent in run.entries:
@@ -274,6 +279,7 @@ def b3(chk):
             feat['aggregated'] += len(e['ids']) > 1 and not o['reason']
             feat['aggregated_blocked'] += len(e['ids']) > 1 and bool(o['reason'])
             feat['multislot'] += len(o['nm']) > 1
+            feat['partly_infinite_penalty'] += bool(o['rx'].get('part'))
         if not viol:
             chk.traces += 1
         for step, clause in viol:
@@ -294,7 +300,8 @@ def b3(chk):
                     sig = 'B3|ReverseIffBidir|aggregated-mixed-bidir'
             chk.violation(sig, dict(trace=name, step=step, clause=clause, entry=ent, requests=run.data['path-request']))
     missing = [r for r in [''] + ALL_REASONS if r not in seen_reason]
-    if missing or not all(feat[k] for k in ('bidir', 'aggregated', 'multislot', 'bidir_blocked', 'aggregated_blocked')):
+    if missing or not all(feat[k] for k in ('bidir', 'aggregated', 'multislot', 'bidir_blocked', 'aggregated_blocked',
+                                              'partly_infinite_penalty')):
         raise Machinery(f'B3 does not realise every outcome class: missing reasons {missing}, features {feat}')
     chk.cov['b3_batches'] = len(traces)
     chk.cov['b3_outcome_classes'] = dict(reasons=sorted(r or 'served' for r in seen_reason), **feat)
